@@ -25,7 +25,9 @@ REPLAYS = os.path.join(_OUT, 'replays') if _OUT else os.path.join(ROOT, 'out', '
 PY_SEMANTICS = [
     "python int is mathematical (true); float is treated as a real, NaN/inf only where a contract models them",
     "dict iterates in insertion order; set iteration order is arbitrary (universally quantified enumeration)",
-    "== on modelled values is structural; `is None` is a tag test; tuples are products",
+    "== on modelled values is structural; `is None` is a tag test; tuples are products; `is` between two values of an "
+    "abstract sort is equality only where the contract declares the sort to stand for objects (identity_sorts), "
+    "out of reach otherwise",
     "exceptions are explicit paths: KeyError/IndexError/TypeError/ValueError/ZeroDivisionError/AssertionError from "
     "subscripts, arithmetic on None, int(), unpacking, assert; an exception the contract does not list fails a "
     "safety obligation",
